@@ -833,6 +833,11 @@ def run_c07(obs, tier, seed, log, logdir):
     for nm, group in (("c07::constants", consts), ("c07::addition-chains", chains)):
         bad = [(n, d) for n, ok, d in group if not ok]
         info = {"wall_s": 0.0, "queries": len(group), "ground": [[n, ok, d[:120]] for n, ok, d in group]}
+        need = ["invert computes", "invert flag", "sqrt computes", "sqrt flag"] if nm == "c07::addition-chains" else []
+        missing = [n for n in need if not any(g0[0].startswith(n) for g0 in group)]
+        if missing and not bad:
+            emit(nm, "inconclusive", "not evaluated (the interpreter could not follow the current source): %s" % ", ".join(missing), info)
+            continue
         if bad:
             cs = []
             if nm == "c07::constants":
